@@ -261,6 +261,9 @@ func outOfDescriptors(dir string) string {
 func (s *shardProc) start(bin string) error {
 	lf, _ := os.OpenFile(s.logf, os.O_CREATE|os.O_APPEND|os.O_WRONLY, 0644)
 	s.cmd = limited(bin, s.args...)
+	// the system temp directory of a pod is another file system than the store volume, or not writable at all:
+	// nothing the sidecar persists may depend on it
+	s.cmd.Env = append(os.Environ(), "TMPDIR=/nonexistent-kvass-verif-tmp")
 	s.cmd.Stdout, s.cmd.Stderr = lf, lf
 	s.cmd.SysProcAttr = &syscall.SysProcAttr{Pdeathsig: syscall.SIGKILL}
 	if err := s.cmd.Start(); err != nil {
